@@ -12,7 +12,8 @@ Definition SSIZE_MAX : Z := 2 ^ 63 - 1.
 Definition SSIZE_MIN : Z := - 2 ^ 63.
 Definition ssize_ok (z : Z) : bool := (SSIZE_MIN <=? z) && (z <=? SSIZE_MAX).
 
-Inductive exn := IndexError | TypeError | ValueError | ZeroDivisionError.
+Inductive exn := IndexError | TypeError | ValueError | ZeroDivisionError
+             | OutOfModel.   (* a pointer source with fewer modelled bytes than the slice: no claim *)
 Inductive res (A : Type) := Ok (a : A) | Err (e : exn).
 Arguments Ok {A} a.
 Arguments Err {A} e.
@@ -66,7 +67,10 @@ Definition adjust (length start stop step : Z) : Z * Z :=
 (* Python values offered on the right-hand side *)
 Inductive pyval :=
 | VBytes (bs : list Z)        (* a bytes object *)
-| VBuf (bs : list Z)          (* another contiguous buffer exporter: bytearray, memoryview, array.array *)
+| VBuf (bs : list Z)          (* another contiguous buffer exporter: bytearray, memoryview, array.array;
+                                 also an ARRAY cdata: _fetch_as_buffer gives it its byte length (feea9b6) *)
+| VPtrSrc (bs : list Z)       (* a POINTER cdata: length unknown (view->len = -1), the slice length is
+                                 trusted; bs = the bytes found behind the pointer *)
 | VOther.                     (* anything without the buffer interface: str, int, list, None ... *)
 
 Definition mb_item (mem : list Z) (off n idx : Z) : res (list Z) :=
@@ -96,6 +100,14 @@ Definition mb_ass_slice (mem : list Z) (off n left right : Z) (other : pyval) : 
       let count := right - left in
       if negb (count =? zlen bs) then Err ValueError
       else Ok (write mem (off + left) bs)
+  | VPtrSrc bs =>
+      let left := if left <? 0 then 0 else left in
+      let right := if n <? right then n else right in
+      let left := if right <? left then right else left in
+      let count := right - left in
+      (* src_view.len = -1: no length test; memcpy(mb_data + left, p, count) *)
+      if zlen bs <? count then Err OutOfModel
+      else Ok (write mem (off + left) (firstn (Z.to_nat count) bs))
   end.
 
 (* subscripts: an integer or a slice(start, stop, step) of optional integers *)
@@ -223,7 +235,7 @@ Fixpoint zlist_eqb (x y : list Z) : bool :=
 Definition exn_eqb (a b : exn) : bool :=
   match a, b with
   | IndexError, IndexError | TypeError, TypeError | ValueError, ValueError
-  | ZeroDivisionError, ZeroDivisionError => true
+  | ZeroDivisionError, ZeroDivisionError | OutOfModel, OutOfModel => true
   | _, _ => false
   end.
 Definition outcome_eqb (a b : outcome) : bool :=
